@@ -149,6 +149,101 @@ func runC05HTTP(o *hx.Out, r *hx.Rand, thorough bool) {
 			"after cancellation an HTTP stream operation stayed blocked")
 		stop()
 	}
+	// (c2) a handler that sends from one goroutine and receives on another (one sender, one receiver: the
+	// concurrency gRPC allows), against a client that sends everything before it starts receiving
+	for _, t := range bothTransports(&hx.Svc{Stream: func(kind string, ss grpc.ServerStream) error {
+		sent := make(chan struct{})
+		go func() {
+			defer close(sent)
+			for i := 0; i < 5; i++ {
+				if ss.SendMsg(&hx.Msg{Count: int32(i)}) != nil {
+					return
+				}
+			}
+		}()
+		for {
+			if err := ss.RecvMsg(&hx.Msg{}); err != nil {
+				break
+			}
+		}
+		<-sent
+		return nil
+	}}) {
+		got, sends := 0, 0
+		var fin error
+		ctx, cancel := context.WithTimeout(context.Background(), 4*time.Second)
+		ok := within(3*time.Second, func() {
+			cs, err := t.ch.NewStream(ctx, hx.StreamDescOf("BD"), "/verif.Svc/BD")
+			if err != nil {
+				fin = err
+				return
+			}
+			time.Sleep(30 * time.Millisecond) // the handler's sender runs ahead and stalls on back-pressure
+			for i := 0; i < 6; i++ {
+				if cs.SendMsg(&hx.Msg{Count: int32(i)}) == nil {
+					sends++
+				}
+			}
+			cs.CloseSend()
+			for {
+				if fin = cs.RecvMsg(&hx.Msg{}); fin != nil {
+					break
+				}
+				got++
+			}
+			runtime.KeepAlive(cs)
+		})
+		cancel()
+		probe("handler_sends_and_receives_concurrently_"+t.name, ok && fin == io.EOF && got == 5 && sends == 6,
+			map[string]interface{}{"transport": t.name, "scenario": "handler: 5 sends on one goroutine, receives on another; client: 6 sends, CloseSend, then receives", "completed_in_3s": ok, "client_sends_ok": sends, "client_received": got, "final": fmt.Sprint(fin)},
+			"a handler sending and receiving concurrently deadlocked with a client that sends before it receives")
+		t.stop()
+	}
+	// (c3) a single-response method whose handler keeps sending: the client's call fails at the second
+	// response and the library then lets go of the exchange (the handler's context ends, no goroutine stays)
+	{
+		handlerDone := make(chan struct{})
+		svc := &hx.Svc{Stream: func(kind string, ss grpc.ServerStream) error {
+			defer close(handlerDone)
+			for i := 0; ; i++ {
+				if err := ss.SendMsg(&hx.Msg{Count: int32(i), Payload: make([]byte, 2048)}); err != nil {
+					return err
+				}
+				select {
+				case <-ss.Context().Done():
+					return ss.Context().Err()
+				case <-time.After(time.Millisecond):
+				}
+			}
+		}}
+		ch, tr, stop := httpPair(svc)
+		base := runtime.NumGoroutine()
+		var fin error
+		ok := within(bound, func() {
+			cs, err := ch.NewStream(context.Background(), hx.StreamDescOf("CS"), "/verif.Svc/CS")
+			if err != nil {
+				fin = err
+				return
+			}
+			cs.SendMsg(&hx.Msg{})
+			cs.CloseSend()
+			fin = cs.RecvMsg(&hx.Msg{})
+			runtime.KeepAlive(cs)
+		})
+		ended := within(bound, func() { <-handlerDone })
+		tr.CloseIdleConnections()
+		deadline := time.Now().Add(bound)
+		for runtime.NumGoroutine() > base+2 && time.Now().Before(deadline) {
+			time.Sleep(5 * time.Millisecond)
+		}
+		left := runtime.NumGoroutine() - base
+		probe("http_single_response_overrun", ok && fin != nil && fin != io.EOF && ended && left <= 2,
+			map[string]interface{}{"transport": "httpgrpc", "scenario": "client-streaming method whose handler sends responses without end", "receive": fmt.Sprint(fin), "handler_context_ended_within_2s": ended, "goroutines_above_baseline": left},
+			"after a single-response call failed on a second response the library kept the exchange (handler and reader goroutine) alive")
+		if ended {
+			stop()
+		} // otherwise closing the test server would wait for that handler for ever: leave it
+	}
 	// (d) KNOWN FINDING F15: a receive issued before CloseSend after the handler has returned
 	{
 		svc := &hx.Svc{Stream: func(kind string, ss grpc.ServerStream) error { return nil }}
